@@ -21,7 +21,9 @@ import io
 import itertools
 import logging
 import os
+import signal
 import struct
+import threading
 import unicodedata
 import zipfile
 import zlib
@@ -50,6 +52,7 @@ META = {
         "the unedited rendering is ContentviewResult.text as returned by prettify_message (after its control-character escaping)",
         "a rendering with syntax_highlight 'error' is not a DNS-view rendering: nothing is re-encoded then",
         "protobuf_definitions is unset; the HTTP/3 view's per-flow state is reset between cases",
+        "'returns' is decided by two hang detectors around every call: a threading.Condition.wait without timeout on the (only) rendering thread is bounded to 50 ms and then reported as a hang (nothing could wake it), and a %d s SIGALRM watchdog covers busy loops" % 120,
         "control character = Unicode general category Cc except TAB, LF, CR",
     ],
 }
@@ -392,10 +395,46 @@ def dns_cases(tier):
 # running
 
 _S = {}
+WATCHDOG_S = 120
+
+
+class Hang(BaseException):
+    """the render call can never return (BaseException so that the views' `except Exception` cannot swallow it)"""
+
+
+_orig_wait = threading.Condition.wait
+
+
+def _guarded_wait(self, timeout=None):
+    """A render runs on one thread and starts none: a wait without timeout inside it can never be woken.
+    Such a wait is bounded here and reported as a hang instead of blocking the checker forever."""
+    if timeout is None and _S.get("in_render") and threading.current_thread() is threading.main_thread():
+        if _orig_wait(self, 0.05):
+            return True
+        raise Hang("blocking wait without timeout that no other thread can wake: the call would never return")
+    return _orig_wait(self, timeout)
+
+
+def _alarm(signum, frame):
+    if _S.get("in_render"):
+        raise Hang("no result after %d s" % WATCHDOG_S)
+
+
+def guarded(fn, *args):
+    """run one call into mitmproxy under the hang detectors"""
+    _S["in_render"] = True
+    signal.setitimer(signal.ITIMER_REAL, WATCHDOG_S)
+    try:
+        return fn(*args)
+    finally:
+        _S["in_render"] = False
+        signal.setitimer(signal.ITIMER_REAL, 0)
 
 
 def setup():
     if _S.get("pid") != os.getpid():
+        threading.Condition.wait = _guarded_wait
+        signal.signal(signal.SIGALRM, _alarm)
         tctx = taddons.context()
         logging.getLogger("mitmproxy.contentviews").setLevel(logging.CRITICAL + 1)
         logging.getLogger("mitmproxy.contentviews._registry").setLevel(logging.CRITICAL + 1)
@@ -419,7 +458,7 @@ def kind_class(kind):
 def render(message, flow, view, t: Tally, case, feats):
     """prettify_message under the two general clauses; returns the result or None"""
     try:
-        res = contentviews.prettify_message(message, flow, view)
+        res = guarded(contentviews.prettify_message, message, flow, view)
     except KeyboardInterrupt:
         raise
     except BaseException as e:
@@ -550,7 +589,7 @@ def one_dns(case, t: Tally, verbose=False):
             attempted = True
             f = {"kind": "dns-" + kind}
             try:
-                out = contentviews.reencode_message(res.text, message, flow, "dns")
+                out = guarded(contentviews.reencode_message, res.text, message, flow, "dns")
             except KeyboardInterrupt:
                 raise
             except BaseException as e:
